@@ -19,6 +19,7 @@ CONSTANTS
   WLens <- NoLens
   FrameOK <- FrameAny
   KeepHist = FALSE
+  MaxQueued <- Many
 CONSTRAINT Progress
 INVARIANTS InOrder FramingInv BufferInv PongsOk WritesOk OutContig DiscOk
 POSTCONDITION Accepted
